@@ -81,6 +81,8 @@ type Env struct {
 	storing      *simrt.Task // task inside SimStore.Store
 	storingEpoch int
 
+	allStreams []*streamState // every stream opened by any actor (operations with N >= 100 address this list)
+
 	sharedSess []lungo.ISession
 	closing    bool // Engine.Close has been invoked by the plan
 	closed     bool // Engine.Close has returned
@@ -238,6 +240,20 @@ func (s *SimStore) Store(c *lungo.Catalog) error {
 }
 
 // ---- engine life cycle ----
+
+// quietStore reports whether nothing in the plan makes a commit spend simulated time inside the store
+// (latency faults, slow disks, freely passing time): then no engine lock is ever held across a timer.
+func (e *Env) quietStore() bool {
+	if e.plan.Cfg.TimePassPct > 0 || e.plan.Cfg.DiskLatMs > 0 {
+		return false
+	}
+	for _, f := range e.plan.Faults {
+		if f.Kind == "store-latency" || f.Kind == "store-slow-fail" {
+			return false
+		}
+	}
+	return true
+}
 
 func taskName(t *simrt.Task) string {
 	if t == nil {
